@@ -20,6 +20,7 @@ import SfntV.Proofs.TotalChainCtxEx
 import SfntV.Proofs.TotalChainCtxBridge
 import SfntV.Proofs.TotalGposSub
 import SfntV.Proofs.TotalGposSubCost
+import SfntV.Proofs.TotalGposSub51
 import SfntV.Proofs.TotalGposSubBridge
 import SfntV.Proofs.TotalGposSubExamples
 
@@ -485,5 +486,20 @@ theorem C02_lookuplist_no_ext_ext_gpos : type_of% @LookupList.dispatch_no_ext_ex
 
 Statement: `∀ {σ : Type} (sub : LookupList.SubReaders σ), LookupList.readLookupList (LookupList.gsubReader sub LookupList.extExtBytes) LookupList.extExtBytes 0 = Outcome.err "invalid"` -/
 theorem C02_lookuplist_ext_ext_rejected : type_of% @LookupList.ext_ext_rejected := @LookupList.ext_ext_rejected
+
+/-- GPOS 5.1 reader (as repaired by 33f30d8: component records read properly) never panics, for every byte string and position.
+
+Statement: `∀ (b : Bytes) (pos : Nat), (GposSub.read51 b pos).noPanic` -/
+theorem C02_gpos51_no_panic : type_of% @GposSub.read51_noPanic := @GposSub.read51_noPanic
+
+/-- GPOS 5.1: TRUE bound ligCount × 163830 steps / 131065 elements — LigatureAttach offsets may alias one table, and with markClassCount = 0 the size cap does not bound componentCount (known finding C02-gpos51-alias: 260 bytes allocate 150 MiB).
+
+Statement: `∀ (b : Bytes) (pos : Nat) (r : List (Nat × Nat) × List (Nat × Nat) × List (Nat × GposSub.Anchor) × List (List (List GposSub.Anchor))) (c : Cost), GposSub.read51 b pos = Outcome.ok (r, c) → ∃ L, L < 65536 ∧ 2 * L ≤ List.length b ∧ c.steps ≤ L * 163830 + 2 * (List.length b / 2) + 5 * (List.length b / 4) + 262151 ∧ c.alloc ≤ L * 131065 + 2 * (List.length b / 4) + 131075` -/
+theorem C02_gpos51_cost_partial : type_of% @GposSub.read51_cost_n := @GposSub.read51_cost_n
+
+/-- Before 33f30d8 `readGpos5_1` indexed the per-ligature offset array with the mark class: a 40-byte subtable with markClassCount 2 > ligCount 1 panics at gpos5.go:109 in the model of the old code; the repaired reader returns an error.
+
+Statement: `List.length GposSub.ex51old = 40 ∧ GposSub.panicSite (GposSub.read51Old GposSub.ex51old 0) = "gpos5.go:109#offsets[j]" ∧ GposSub.errOf (GposSub.read51 GposSub.ex51old 0) = "io"` -/
+theorem C02_gpos51_unrepaired_panics : type_of% @GposSub.read51Old_panics := @GposSub.read51Old_panics
 
 end SfntV.Props.C02B
